@@ -77,7 +77,7 @@ const (
 	ONeg
 	OLt
 	OLe
-	OBV2Int // unsigned
+	OBV2Int  // unsigned
 	OBV2IntS // signed (two's complement)
 	OInt2BV
 	OApp
@@ -123,7 +123,10 @@ type Ctx struct {
 	UFs    map[string]*UFDecl
 	UFList []*UFDecl
 	ivals  map[int]ival // intarith.go: memoised syntactic intervals of Int terms
-	NoLift bool // per-context switch: see liftPair
+	NoLift bool         // per-context switch: see liftPair
+	// RangeHint: Int terms q for which int2bv(q) appears in unsigned comparisons with q expected in [0, 2^w)
+	// (quotients of math/bits.Div64 ...): see bvcmp
+	RangeHint map[*Term]bool
 }
 
 type UFDecl struct {
@@ -680,6 +683,31 @@ func (c *Ctx) bvcmp(op Op, a, b *Term) *Term {
 	}
 	if a == b {
 		return c.BoolConst(op == OBVUle || op == OBVSle)
+	}
+	// unsigned comparison against int2bv(q) where q was hinted to lie in [0, 2^w) on the paths that use it
+	// (RangeHint): compare in the Int theory when the range holds, keep the bit-vector comparison otherwise.
+	// The rewrite is guarded, hence sound whether or not the hint is true.
+	if (op == OBVUlt || op == OBVUle) && len(c.RangeHint) > 0 {
+		hinted := func(t *Term) bool { return t.Op == OInt2BV && c.RangeHint[t.Args[0]] }
+		if hinted(a) || hinted(b) {
+			toInt := func(t *Term) (*Term, *Term) { // value, guard
+				if hinted(t) {
+					q := t.Args[0]
+					lim := c.IntConst(new(big.Int).Lsh(big.NewInt(1), uint(t.Sort.W)))
+					return q, c.And(c.Le(c.IntI(0), q), c.Lt(q, lim))
+				}
+				return c.BV2Int(t), c.True
+			}
+			ai, ga := toInt(a)
+			bi, gb := toInt(b)
+			var cmp *Term
+			if op == OBVUlt {
+				cmp = c.Lt(ai, bi)
+			} else {
+				cmp = c.Le(ai, bi)
+			}
+			return c.Ite(c.And(ga, gb), cmp, c.mk(op, Bool, []*Term{a, b}, nil, "", 0, 0))
+		}
 	}
 	if op == OBVUlt && b.IsConst() && b.Val.Sign() == 0 {
 		return c.False
